@@ -1,5 +1,6 @@
 import GoSQLXModel.Model.Pool
 import GoSQLXModel.Gen.AstTables
+import GoSQLXModel.Gen.Structure
 /-!
 # C09 — Returned values belong to the caller; pooled nodes come back clean
 
@@ -21,6 +22,11 @@ open GoSQLXModel GoSQLXModel.Pool
 
 /-- table obligation: the offender list computed from the extracted schema and pool sites is empty -/
 theorem gen_pool_ok : poolOffenders Gen.astSchema Gen.poolSites = [] := by decide +kernel
+
+/-- a node returned to a pool goes to the pool its `Get` function draws that type from (no type confusion on reuse) -/
+theorem gen_pool_put_matches_get :
+    (Gen.Structure.poolPuts.all fun e => e.2.2.2 == "" || e.2.2.1 == e.2.2.2) = true ∧ Gen.Structure.poolPuts.length ≥ 30 := by
+  decide +kernel
 
 theorem gen_covers : Covers Gen.astSchema Gen.poolSites := poolOffenders_nil gen_pool_ok
 
